@@ -472,6 +472,30 @@ let run_heapcheck line =
     b (dl_check h) ^ b (msym_check h) ^ b (order_check h)
   | _ -> "000"
 
+(* ---------- ambidextrous markers: "<hex>" -> "<offset>:<can_open><can_close> ..." ("<offset>:!!" when the model reads outside the text) *)
+let run_ambi line =
+  let s = bytes_of_hex (String.trim line) in
+  let b x = if x then "1" else "0" in
+  String.concat " " (List.map (fun (i, r) -> string_of_int (int_of_nat i) ^ ":" ^
+    (match r with Some (o, c) -> b o ^ b c | None -> "!!")) (assign_all s))
+
+(* tokens from the real lexer: "<hex> <kind>:<start>:<len> ..." -> "<can_open><can_close><= | A | T>:<len> ..." *)
+let run_ambitok line =
+  match split_on ' ' line with
+  | hx :: toks ->
+    let s = bytes_of_hex hx in
+    let b x = if x then "1" else "0" in
+    let tk t = match String.split_on_char ':' t with
+      | [k; st; ln] ->
+        let kind = (match k with "S" -> KStar | "U" -> KUl | "B" -> KBacktick | "Q" -> KQuoteSingle | "D" -> KQuoteDouble
+                                 | "N" -> KDashN | "M" -> KMath | "P" -> KSupSub | _ -> failwith "bad kind") in
+        ((kind, nat_of_int (int_of_string st)), nat_of_int (int_of_string ln))
+      | _ -> failwith "bad token" in
+    String.concat " " (List.map (function
+      | Some r -> b r.r_open ^ b r.r_close ^ (match r.r_type with Same -> "=" | ToApostrophe -> "A" | ToTextPlain -> "T") ^ ":" ^ string_of_int (int_of_nat r.r_len)
+      | None -> "!!") (assign_toks s (List.map tk toks)))
+  | [] -> ""
+
 let () =
   let model = Sys.argv.(1) in
   let f = match model with
@@ -493,6 +517,8 @@ let () =
     | "surgery" -> run_surgery
     | "pairmatch" -> run_pairmatch
     | "heapcheck" -> run_heapcheck
+    | "ambi" -> run_ambi
+    | "ambitok" -> run_ambitok
     | _ -> failwith "unknown model" in
   try while true do
     let line = input_line stdin in
